@@ -12,4 +12,4 @@ for c in "$@"; do
   B=$(basename $D); LOG=/verif/out/try_${B}_$c.log
   ( cd /verif && VERIF_REPO=$WT timeout 2400 ./check $c --tier ${TIER:-quick} > $LOG 2>&1; RC=$?; echo "$B $c exit=$RC $(grep -c '^VIOLATION' $LOG) violation-lines; $(grep 'violation detail' $LOG | head -1 | cut -c1-220)" )
 done
-cd $WT && git checkout -q -- . && git clean -fdq crates
+cd $WT && git checkout -q -- . && git clean -fdq crates; rm -rf /verif/out/traces_alt_*
